@@ -34,10 +34,16 @@ def run(ctx):
         raise vlib.Infra("vacuity guard: FracAppend_stale.cfg should violate EveryBulkReturns, TLC says %s" % (r.violated or r.error))
     if not quick:
         for mod, cfg, inv in (("ActiveIndex.tla", "ActiveIndex_mutPos.cfg", "ReturnedOK"), ("ActiveIndex.tla", "ActiveIndex_mutClamp.cfg", "ReturnedOK"),
-                              ("ActiveIndex.tla", "ActiveIndex_mutIds.cfg", "NoInverserPanic"), ("ProxyFrac.tla", "ProxyFrac_mut.cfg", "NoSpuriousEmpty")):
+                              ("ActiveIndex.tla", "ActiveIndex_mutIds.cfg", "NoInverserPanic"), ("ProxyFrac.tla", "ProxyFrac_mut.cfg", "NoSpuriousEmpty"),
+                              # the code as it is: a question through proxyFrac.cur() panics once retention has put the proxy
+                              # into the Suicided state (outside C07's quantifier; DESIGN §9, observations)
+                              ("ProxyFrac.tla", "ProxyFrac_asis_cur.cfg", "NoPanic")):
             r = vlib.run_tlc(ctx, mod, cfg, tags=("NOCASE",), timeout=1200)
             if r.violated != inv:
                 raise vlib.Infra("vacuity guard: %s should violate %s, TLC says %s" % (cfg, inv, r.violated))
+        r = vlib.run_tlc(ctx, "ProxyFrac.tla", "ProxyFrac_cursafe.cfg", tags=("NOCASE",), timeout=1200)
+        if r.violated:
+            raise vlib.Infra("TLC: %s violated in ProxyFrac.tla (nil-safe cur())" % r.violated)
     # (1) forced interleavings
     cf = os.path.join(ctx.scratch, "ai-paths.jsonl")
     r = vlib.run_tlc(ctx, "ActiveIndex.tla", "ActiveIndex_paths1.cfg" if quick else "ActiveIndex_paths2.cfg", case_file=cf, workers=4, timeout=1800)
